@@ -19,6 +19,8 @@ R3.16 an object schema without properties is rendered as the data-preserving wra
 R3.11 wire keys / discriminator values are emitted as literals that evaluate to the spec's own string (non-BMP characters survive)  [= R15.5]
 R3.8  nullability written as a type array is read from the document node at every sibling site (never from IRSchema.type, a string)
 R3.5  recursion over field types: every field of every dataclass gets its nested types registered (no skip)
+R3.17 the dataclass hook factories resolve nested forward references before cattrs sees the class (tree-shaped models round-trip)        [= R16.13]
+R3.18 a discriminator without explicit mapping still selects the variant (implicit mapping)                                                  [= R14.14]
 """
 from __future__ import annotations
 
@@ -38,6 +40,10 @@ def run(repo: Repo, rep: Report, tier: str) -> None:
     cv.rule_rename_plumbing(repo, rep, "R3.4")
     cv.rule_unlisted_field_keeps_its_name(repo, rep, "R3.13")
     cv.rule_recursive_registration(repo, rep, "R3.5")
+    cv.rule_field_types_resolved(repo, rep, "R3.17")
+    from rules.c14 import rule_implicit_mapping as _rim
+
+    _rim(repo, rep, "R3.18")
 
     # ---------------------------------------------------------------- R3.2
     gen = repo.func("visit.model.dataclass_generator:DataclassGenerator.generate")
